@@ -19,7 +19,7 @@
 (* evaluated at every event (step clauses, cheap state clauses) or at the  *)
 (* audit events (complete state clauses).                                  *)
 (***************************************************************************)
-EXTENDS BookProps, Json, IOUtils
+EXTENDS PyView, Json, IOUtils
 
 Rec == ndJsonDeserialize(IOEnv.TRACE)
 
@@ -44,13 +44,18 @@ LabelOf(e) ==
     [] e.op = "event"  -> [op |-> "event", dt |-> e.dt, k |-> e.k, id |-> e.id, p |-> e.p, v |-> e.v]
     [] e.op = "settime" -> [op |-> "settime", t |-> e.t]
     [] e.op = "reload"  -> [op |-> "reload", mode |-> e.mode]
+    [] e.op = "bad"     -> [op |-> "bad", call |-> e.call, arg |-> e.arg, val |-> e.val]
     [] OTHER -> [op |-> e.op]
 
 \* ---- does the specification successor show the logged delta? ------------
 ChangedIds(old, new) ==
   {i \in Ids(new) : i >= NOrders(old) \/ O(new, i) # O(old, i)}
 
-DeltaClauses(old, new, e) ==
+\* events recorded through the Python extension (py/pyrecord.py) carry what the Python OrderBook
+\* shows, in Python's encoding; TLC compares with PyView's rendering of the successor state
+IsPy(e) == "py" \in DOMAIN e
+
+RustDelta(old, new, e) ==
   << <<"now",     new.now = e.now>>,
      <<"trading", new.trading = e.trading>>,
      <<"tvol",    new.tvol = e.tvol>>,
@@ -63,6 +68,20 @@ DeltaClauses(old, new, e) ==
      <<"new_trades", [k \in 1..Len(NewTrades(old, new)) |-> TradeTuple(NewTrades(old, new)[k])] = e.newtr>>,
      <<"views", ViewsAll(ViewsQ(new)) = e.views>>,
      <<"ret", ("ret" \in DOMAIN e) => RetOf(old, LabelOf(e)) = e.ret>> >>
+
+PyDelta(old, new, e) ==
+  << <<"py_n_orders", NOrders(new) = e.no>>,
+     <<"py_n_trades", Len(new.trades) = e.nt>>,
+     <<"py_changed_orders", ChangedIds(old, new) = {e.do[k][1] : k \in 1..Len(e.do)}>>,
+     <<"py_order_tuples", \A k \in 1..Len(e.do) :
+                           /\ e.do[k][1] \in Ids(new)
+                           /\ PyOrder(O(new, e.do[k][1]), e.do[k][1]) = e.do[k][2]>>,
+     <<"py_new_trades", [k \in 1..Len(NewTrades(old, new)) |-> PyTrade(NewTrades(old, new)[k])] = e.newtr>>,
+     <<"py_scalars", PyBookScalars(new) = e.pv>>,
+     <<"py_exception", e.op = "reset" \/ PyExc(old, LabelOf(e)) = e.exc>>,
+     <<"py_ret", ("ret" \in DOMAIN e) => RetOf(old, LabelOf(e)) = e.ret>> >>
+
+DeltaClauses(old, new, e) == IF IsPy(e) THEN PyDelta(old, new, e) ELSE RustDelta(old, new, e)
 
 FirstFalse(cl) ==
   LET F == {k \in 1..Len(cl) : ~cl[k][2]} IN
@@ -90,6 +109,7 @@ AuditClauses(bk) ==
   << <<"C01_QueueSorted", C01_QueueSorted(bk)>>,
      <<"C02_ViewsAgree", C02_ViewsAgree(bk)>>,
      <<"C03_WellFormed", C03_WellFormed(bk)>>,
+     <<"C03_TimeOrdered", C03_TimeOrdered(bk)>>,
      <<"C03_Conservation", C03_Conservation(bk)>>,
      <<"C04_State", C04_State(bk)>>,
      <<"C12_OnGrid", C12_OnGrid(bk)>>,
